@@ -65,7 +65,7 @@ def _case(draw):
     tree = draw(_tree(draw(st.sampled_from([0, 1, 1, 2, 2, 3, 3, 4]))))
     pats = draw(st.lists(_pattern_strategy(), min_size=draw(st.sampled_from([0, 1, 1, 2])), max_size=3))
     return {'tree': tree, 'skip_layers': pats, 'method': draw(st.sampled_from(['eigen', 'inverse'])),
-            'variant': 'kaisa'}
+            'variant': 'kaisa', 'refused_first': draw(st.sampled_from([0, 0, 1, 2, 3, 4]))}
 
 
 GPT_LEAVES = ['col', 'col', 'row', 'row', 'col_nobias', 'row_nobias', 'linear', 'relu', 'ln', 'subcol', 'embedding']
@@ -328,6 +328,19 @@ class C16(Prop):
             else:
                 n_inel += 1
                 reasons.add(why)
+        if case.get('refused_first'):
+            # a registration that cannot succeed (a skip pattern that is not a valid regular expression, after patterns that are) on
+            # some other model in the same process: it may raise, but must not affect the registration that follows
+            import torch
+            other = torch.nn.Sequential(torch.nn.Conv2d(1, 1, 1), torch.nn.Linear(2, 2), torch.nn.Sequential(torch.nn.Linear(2, 1)))
+            bads = (['Conv2d', '('], ['Linear', '[a-'], ['^0$', '(?P<x>a)(?P<x>b)'], ['Sequential', 'Conv2d', '*'])
+            for bad in (bads[(case['refused_first'] - 1) % len(bads)],):
+                try:
+                    with warnings.catch_warnings():
+                        warnings.simplefilter('ignore')
+                        KFACPreconditioner(other, skip_layers=bad, compute_method=case['method'])
+                except Exception:  # noqa: BLE001
+                    pass
         try:
             with warnings.catch_warnings():
                 warnings.simplefilter('ignore')
